@@ -147,6 +147,15 @@ CLAIMS = {
             "for both root and delegation tables; that key_id is SHA-256 over the canonical "
             "serialisation of the key itself. SHA-256 / value-level round trips are not decided.",
             "DESIGN.md §4 C13"),
+    "C17": ("carry-over analysis: MIR value-origin (including mutation through extend/insert/push) and "
+            "control-dependence over the editor's loaders and builders, field enumeration from ADT facts",
+            "Decides for every schema struct the editor rebuilds that each field is regenerated by design "
+            "or originates — unconditionally, whenever present — from the editor field filled from the "
+            "loaded repository (targets, delegations, unknown members of targets/snapshot/timestamp), "
+            "that from_repo feeds all three roles, and that delegated roles are collected recursively and "
+            "re-emitted with their Signed<_> value untouched. Member-by-member equality of written files "
+            "is not decided.",
+            "DESIGN.md §4 C17"),
 }
 
 NOT_YET = {}
